@@ -138,6 +138,9 @@ def run_case(case):
                 break
         if len(blocks) % nb != 0 or not blocks:
             v.append(violation("validation_sweep_incomplete", {"calls": len(blocks), "batches_per_sweep": nb}, **where))
+    if family != "CategoricalModel" and mode == "fit" and rs.perm_calls != len(spy.log):
+        v.append(violation("epoch_permutation_not_drawn_from_the_estimator_random_state",
+                           {"permutations_drawn_from_random_state": rs.perm_calls, "epochs": len(spy.log)}, **where))
     if mode in ("fit", "refit_up", "refit_down"):
         if len(spy.log) != max_iter:
             v.append(violation("wrong_number_of_epochs", {"epochs": len(spy.log), "max_iter": max_iter}, **where))
